@@ -8,7 +8,8 @@ MANIFEST = dict(
          "(table_ok, hoisted_state_rows). Tie: for every catalogue operator, one operator VALUE is applied to two cold sources before either is subscribed, the second pipeline is subscribed first, "
          "then the first three times sequentially and four times concurrently; every trace must equal the model's single run; laziness: no source subscribed at construction, one subscription per Subscribe. "
          "Found and repaired: MergeMapIWithContext (index in application scope), OnErrorResumeNextWith (captured slice rewritten)."
-         ' Building a pipeline does nothing: the regenerated BuildTime table (go/extract/buildtime.go; RoProps/C12.buildtime_rows) has no clock / randomness read and no mutex, once, channel, subscription, subject, derived context or atomic created outside a subscribe function, except Share* (hot by definition); kind=lateuse builds a pipeline, lets more than its duration parameter pass, and subscribes it twice.',
+         ' Building a pipeline does nothing: the regenerated BuildTime table (go/extract/buildtime.go; RoProps/C12.buildtime_rows) has no clock / randomness read and no mutex, once, channel, subscription, subject, derived context or atomic created outside a subscribe function, except Share* (hot by definition); kind=lateuse builds a pipeline, lets more than its duration parameter pass, and subscribes it twice.'
+         ' The BuildTime table also covers the operator constructors of the plugins (hot constructs of the core created per operator value); kind=rate op=native-twin: one native rate-limiter value applied to two live streams, the first then cancelled / unsubscribed.',
     technique="Lean 4 (functional model => resubscription theorems) + kernel-decided StatePlacement table regenerated from source + differential re-subscription/re-application runs",
     ref='5/C12')
 
